@@ -1,5 +1,5 @@
 #!/bin/sh
-# usage: tools/confirm_seed.sh <name> <patch.diff> <demo file (rs for mla/tests, or sh)>
+# usage: tools/confirm_seed.sh <name> <patch.diff> <demo file (rs for mla/tests — DEMO_CRATE=mlar for mlar/tests —, or sh)>
 # Confirms in a scratch worktree: demo passes without the patch, fails with it, existing suite passes with it.
 # Writes /verif/seeded/<name>/{patch.diff,demo,confirm.log}; prints a one-line verdict.
 NAME="$1"; PATCH="$2"; DEMO="$3"
@@ -11,7 +11,7 @@ git -C /repo worktree add --detach "$WT" HEAD >/dev/null 2>&1 || { echo "$NAME: 
 LOG="$D/confirm.log"; : > "$LOG"
 run_demo() {
   case "$DEMO" in
-    *.rs) cp "$DEMO" "$WT/mla/tests/seed_demo_x.rs"; (cd "$WT" && CARGO_TARGET_DIR="$TD" cargo test --offline -p mla --test seed_demo_x >>"$LOG" 2>&1); rc=$?; rm -f "$WT/mla/tests/seed_demo_x.rs"; return $rc;;
+    *.rs) CR=${DEMO_CRATE:-mla}; cp "$DEMO" "$WT/$CR/tests/seed_demo_x.rs"; (cd "$WT" && CARGO_TARGET_DIR="$TD" cargo test --offline -p $CR --test seed_demo_x >>"$LOG" 2>&1); rc=$?; rm -f "$WT/$CR/tests/seed_demo_x.rs"; return $rc;;
     *.sh) (cd "$WT" && CARGO_TARGET_DIR="$TD" cargo build --offline -p mlar >>"$LOG" 2>&1 && WT="$WT" TD="$TD" MLAR="$TD/debug/mlar" sh "$DEMO" >>"$LOG" 2>&1); return $?;;
   esac
 }
